@@ -484,7 +484,7 @@ func (x *Exec) applyContract(fr *Frame, st *State, c *Contract, sig *types.Signa
 		pfx = fr.fn.Name() + ":"
 	}
 	// receiver must be non-nil for pointer-receiver methods
-	if c.Recv != "" && !c.Iface {
+	if c.Recv != "" && !c.Iface && c.Opts["nilrecv"] == "" {
 		if _, isPtr := args[0].GoType().Underlying().(*types.Pointer); isPtr {
 			g := x.nonNil(args[0])
 			x.oblige(st, "nil", fmt.Sprintf("%snil-recv:%s@%d", pfx, short, site), x.c.Props, g, "receiver of "+short+" is non-nil", posStr(x.prog.fset, ins.Pos()))
@@ -611,6 +611,8 @@ func (x *Exec) applyModifies(ev *specEnv, st *State, items []string) {
 			x.havoc(st, true, nil)
 		case strings.HasPrefix(it, "class "):
 			x.havoc(st, false, []string{strings.TrimSpace(strings.TrimPrefix(it, "class "))})
+		case strings.HasPrefix(it, "owned "):
+			x.havoc(st, false, x.ownedClasses(strings.TrimSpace(strings.TrimPrefix(it, "owned ")), ev.c))
 		default:
 			x.havocLocation(ev, st, it)
 		}
@@ -634,7 +636,7 @@ func (x *Exec) havocLocation(ev *specEnv, st *State, it string) {
 			if !ok {
 				fail("modifies %s: not a slice or map", it)
 			}
-			d, vc, sz := mapClasses(mt)
+			d, vc, sz := x.mapClassesOf(b.T, mt)
 			ks := x.heapSort(mt.Key())
 			A := x.classTermSort(st, d, arr(sInt, arr(ks, sBool)))
 			x.setClass(st, d, mkStore(A, b.T, x.fresh("hv", arr(ks, sBool))))
@@ -658,4 +660,33 @@ func (x *Exec) havocLocation(ev *specEnv, st *State, it string) {
 	p := ev.evalLoc(parseSpecExpr(it))
 	v := x.freshVal(st, "hv", p.Elem)
 	x.store(st, p, v)
+}
+
+// ownedClasses returns the heap classes holding the maps of an owned field ("Type.field", package of the contract).
+func (x *Exec) ownedClasses(name string, c *Contract) []string {
+	q := name
+	if c != nil && c.Pkg != "" && !strings.Contains(strings.TrimSuffix(name, name[strings.LastIndex(name, "."):]), ".") {
+		q = c.Pkg + "." + name
+	}
+	i := strings.LastIndex(q, ".")
+	t, ok := x.prog.namedType(q[:i])
+	if !ok {
+		fail("owned %s: unknown type", name)
+	}
+	stt, ok := t.Underlying().(*types.Struct)
+	if !ok {
+		fail("owned %s: not a struct", name)
+	}
+	for k := 0; k < stt.NumFields(); k++ {
+		if stt.Field(k).Name() == q[i+1:] {
+			mt, ok := stt.Field(k).Type().Underlying().(*types.Map)
+			if !ok {
+				fail("owned %s: not a map field", name)
+			}
+			d, v, s := mapClasses(mt)
+			return []string{d + "@" + q, v + "@" + q, s + "@" + q}
+		}
+	}
+	fail("owned %s: no such field", name)
+	return nil
 }
